@@ -87,7 +87,9 @@ def _shapes_c14_1(tier):
     for length in ((1, 2, 3, 5) if tier == "quick" else (0, 1, 2, 3, 4, 5, 6)):
         for extra in (0, 2):
             out.append(dict(op="recv", length=length, extra=extra))
-        out.append(dict(op="recv-short", length=length, have=length - 1))
+        if length > 0:
+            out.append(dict(op="recv-short", length=length,
+                            have=length - 1))
     for n in ((1, 3, 4) if tier == "quick" else (0, 1, 2, 3, 4, 5, 6)):
         out.append(dict(op="send", length=n))
     return out
